@@ -18,6 +18,7 @@
 package compressor
 
 import (
+	"errors"
 	"fmt"
 
 	"github.com/pierrec/lz4/v4"
@@ -44,12 +45,18 @@ func (l *Lz4) Compress(data []byte) ([]byte, error) {
 }
 
 func (l *Lz4) Decompress(in []byte) ([]byte, error) {
-	out := make([]byte, 100*len(in))
-	n, err := lz4.UncompressBlock(in, out)
-	if err != nil {
-		return nil, err
+	// the block does not carry its uncompressed size: start with a generous buffer and grow it while
+	// the block does not fit (an lz4 block expands at most 255 times)
+	for size := 100 * len(in); ; size *= 2 {
+		out := make([]byte, size)
+		n, err := lz4.UncompressBlock(in, out)
+		if err == nil {
+			return out[:n], nil
+		}
+		if !errors.Is(err, lz4.ErrInvalidSourceShortBuffer) || size >= 255*len(in) {
+			return nil, err
+		}
 	}
-	return out[:n], nil
 }
 
 func (l *Lz4) GetCompressorType() CompressorType {
